@@ -35,12 +35,14 @@ Theorem C04_generated_text_of_the_class : forall rd fuel st latex r,
                    (exists m mac body b, In m toks /\ faithful latex m /\ tk m = KMacro /\
                                 assoc (txt m) (macros st) = Some mac /\
                                 m_repl mac = RToks body /\ In b body /\
-                                t = set_pos_fix b (pos m)))
+                                t = set_pos_fix b (pos m)) \/
+                   (exists s, In s toks /\ faithful latex s /\ tk s = KVerb false /\
+                                t = mk KText (pos s) (txt s) (pfix s)))
          (filter (solid py_isspace) (snd r)).
 Proof.
   exact (fun rd fuel st latex r Hd Hp =>
            proj1 (proj2 (parser_work_class py_tables rd (eq_refl true) (fun c => eq_refl)
-                                           (eq_refl true) (eq_refl true) fuel st latex r Hd Hp))).
+                                           (conj eq_refl eq_refl) (eq_refl true) (eq_refl true) fuel st latex r Hd Hp))).
 Qed.
 Print Assumptions C04_generated_text_of_the_class.
 
